@@ -68,6 +68,12 @@ CLAIMS = {
         "technique": "contract-based deductive verification: stage-1 symbolic execution of the emitter, stage-2 meaning of the emitted guards, SMT",
         "design_ref": "DESIGN.md §6 C02",
     },
+    "C17": {
+        "level": "Relational proof: yamlFormatter.generate emits, path for path, the same text as jsonFormatter.generate modulo the method header and the decode call (abstract validators, at most 3); every validator's emitted text is independent of the format argument (anyOf: method name only); validators do not modify their own state when emitting (frame), so the second emission equals the first.",
+        "note": "Necessary condition only: equal guards over equal plain/raw give equal verdicts IF the two decoders produce the same plain/raw, which is an assumption about yaml.v3 vs encoding/json.",
+        "technique": "contract-based deductive verification: relational (twin) obligation over stage-1 symbolic execution of both emitters",
+        "design_ref": "DESIGN.md §6 C17",
+    },
 }
 
-NOT_APPLICABLE = {p: PENDING for p in ["C08", "C10", "C12", "C13", "C14", "C16", "C17", "C18", "C20"]}
+NOT_APPLICABLE = {p: PENDING for p in ["C08", "C10", "C12", "C13", "C14", "C16", "C18", "C20"]}
